@@ -170,5 +170,8 @@ CentreInArea(c, e, slack) ==
     LET b == AreaBox(c) IN
     /\ 2 * b.x0 - slack <= 2 * e.x + PW(e) /\ 2 * e.x + PW(e) <= 2 * b.x1 + slack
     /\ 2 * b.y0 - slack <= 2 * e.y + PH(e) /\ 2 * e.y + PH(e) <= 2 * b.y1 + slack
-Finite(c, bound) == \A i \in CellIds(c) : Abs(c.cells[i].x) <= bound /\ Abs(c.cells[i].y) <= bound
+\* (written without Abs: the overflowed value -2^31 cannot be negated in TLC's 32-bit integers)
+Finite(c, bound) == \A i \in CellIds(c) : (0 - bound) <= c.cells[i].x /\ c.cells[i].x <= bound /\ (0 - bound) <= c.cells[i].y /\ c.cells[i].y <= bound
+\* a net list in which no net has a pin on a fixed cell: the wirelength problem is translation invariant
+FloatingNetlist(c) == \A k \in 1..Len(c.nets) : \A j \in 1..Len(c.nets[k].pins) : ~c.cells[c.nets[k].pins[j].c].f
 =============================================================================
